@@ -731,7 +731,7 @@ func (obj *DenseReal32MatrixIterator) GET() *Real32 {
   return obj.m.AT(obj.i, obj.j)
 }
 func (obj *DenseReal32MatrixIterator) Ok() bool {
-  return obj.i < obj.m.rowMax && obj.j < obj.m.colMax
+  return obj.i < obj.m.rows && obj.j < obj.m.cols
 }
 func (obj *DenseReal32MatrixIterator) next() {
   if obj.j == obj.m.cols-1 {
